@@ -102,8 +102,6 @@ def resolve_shard(task):
         bind = build(cfg)
         celbind = {k: to_cel(v) for k, v in bind.items()}
         for package in (None, "p", "p.q"):
-            if tier != "thorough" and package == "p.q" and not any(cfg[6:]):
-                continue
             for ref in REFS:
                 key = (package, ref, tuple(sorted(bind)) if style == "shadow" else None)
                 if key not in progs:
